@@ -729,6 +729,10 @@ def builtin (fn : String) (args : List Val) : Option (M Val) :=
   | "sum", [.list l] => some (sumList (.int (.lit 0)) l)
   | "sum", [.list l, start] => some (sumList start l)
   | "cast", [_, v] => some (M.pure v)
+  | "__len_set", [.list l] => some (do
+      -- `len(set(xs))` (the translator's name for it): the number of distinct items
+      let ks ← dedupKeys [] l
+      M.pure (.int (.lit ks.length)))
   | "dict.fromkeys", [.list l] => some (do
       let ks ← dedupKeys [] l
       M.pure (.dict ks (ks.map (fun _ => Val.none))))
